@@ -383,7 +383,13 @@ func redactPipelineStage(stage interface{}, redactFieldNames bool, keyPath []str
 					}
 					continue
 				case Exempt:
-					newMap.Set(redactedKey, v)
+					if arr, ok := v.([]any); ok {
+						// an array under an exempt key is not a plain parameter (e.g. $merge.whenMatched given as a pipeline)
+						isSelectivelyRedactable := isRedactableFieldPatternInArray(arr)
+						newMap.Set(redactedKey, redactArrayValues(arr, redactFieldNames, inSearchStage, isSelectivelyRedactable, newKeyPath))
+					} else {
+						newMap.Set(redactedKey, v)
+					}
 					continue
 				case Pipeline:
 					if arr, ok := v.([]any); ok {
@@ -467,7 +473,13 @@ func redactPipelineStage(stage interface{}, redactFieldNames bool, keyPath []str
 									}
 									continue
 								case Exempt:
-									newSubMap.Set(subK, subV)
+									if arr, ok := subV.([]any); ok {
+										// an array under an exempt key is not a plain parameter (e.g. $merge.whenMatched given as a pipeline)
+										isSelectivelyRedactable := isRedactableFieldPatternInArray(arr)
+										newSubMap.Set(subK, redactArrayValues(arr, redactFieldNames, inSearchStage, isSelectivelyRedactable, append(newKeyPath, subK)))
+									} else {
+										newSubMap.Set(subK, subV)
+									}
 									continue
 								case OperatorArray:
 									if arr, ok := subV.([]any); ok {
